@@ -117,7 +117,7 @@ def load_jsonl(p):
 
 
 def run_correspondence(ck, consts):
-    henv = {"C03_THRESHOLD": str(consts["THRESHOLD"]), "C03_FLUSH_LIMIT": str(consts["FLUSH_LIMIT"])}
+    henv = {"C03_THRESHOLD": str(consts["THRESHOLD"]), "C03_FLUSH_LIMIT": str(consts["FLUSH_LIMIT"]), "C03_TIER": ck.tier}
     if not ck.go_build("decode"):
         ck.obligation("harness decode builds against the repository", False, ck.build_out[-1500:])
         return
@@ -217,11 +217,12 @@ def run_correspondence(ck, consts):
                       "proto": worst["proto"], "class": worst["class"], "case": small(worst),
                       "broken": "correspondence Decode.decode vs writer/utils/unmarshal"}, no_input=True)
     # coverage
-    hist, distinct, errs = {}, set(), {}
+    hist, distinct, errs, caches = {}, set(), {}, {}
     crossed_mib = crossed_1000 = 0
     for c in cases:
         key = c["proto"] + "/" + c["class"]
         hist[key] = hist.get(key, 0) + 1
+        caches[c.get("cache") or "never-hit"] = caches.get(c.get("cache") or "never-hit", 0) + 1
         if c["obs"]["err"]:
             errs[key] = errs.get(key, 0) + 1
         if c["nrows"] >= 2:
@@ -235,6 +236,7 @@ def run_correspondence(ck, consts):
     ck.coverage["rule"] += ("bodies for the seven parsers (Loki JSON both layouts / protobuf, remote write, Influx, Datadog logs/metrics, OTLP logs), "
                             "serialised with random key order, timestamp syntax and layout; non-trivial = at least 2 submitted entries; distinct by body content. ")
     ck.extra["input_distribution"] = hist
+    ck.extra["fingerprint_cache_kinds"] = caches
     ck.extra["bodies_with_more_than_one_chunk"] = crossed_mib
     ck.extra["remote_write_bodies_with_1000_points_or_more"] = crossed_1000
     ck.extra["parser_errors_by_class"] = errs
@@ -248,7 +250,7 @@ def run(ck):
     ck.trusted += [
         "C03: the wire decoders (jx, protobuf, the telegraf Influx parser, the Datadog tag regexp, text/scanner for Loki label strings) are crossed by the correspondence only; the harness's serialisers are trusted",
         "C03: fingerprintLabels and len(encodeLabels) are oracles of the model (theorems hold for every such function); per case they are the table read off the implementation's own time_series rows, label lists compared as multisets (permutation invariance of the fingerprint is C04's theorem)",
-        "C03: the fingerprint cache is abstract in the theorems; the harness runs with the never-hit cache of a clustered deployment; Go map iteration order (Influx fields, OTLP attributes) is not modelled: rows of one Influx line are compared as a multiset",
+        "C03: the fingerprint cache is abstract in the theorems; the harness runs with the never-hit cache of a clustered deployment or a per-request set cache; Go map iteration order (Influx fields, OTLP attributes) is not modelled: rows of one Influx line are compared as a multiset",
         "C03: time.Now() for missing Datadog timestamps and Influx 'message' lines with further fields (logfmt in map order) are outside the model (not generated)",
     ]
     consts = regen(ck)
@@ -258,4 +260,6 @@ def run(ck):
         return
     if not ck.coq_props():
         return
+    if not ck.quick():
+        ck.coqchk(["Qryn.props.C03"])
     run_correspondence(ck, consts)
